@@ -113,3 +113,25 @@ where
     );
     r
 }
+
+/// Render a set of routing variables as JSON: `{"name": {"s": "value"}}` for a
+/// single segment, `{"name": {"c": ["a", "b"]}}` for a wildcard.
+pub fn variables_json(vars: &crate::router::VariableSet) -> serde_json::Value {
+    let m: serde_json::Map<String, serde_json::Value> = vars
+        .iter()
+        .map(|(k, v)| {
+            (
+                k.clone(),
+                match v {
+                    crate::router::VariableValue::String(s) => {
+                        serde_json::json!({ "s": s })
+                    }
+                    crate::router::VariableValue::Components(c) => {
+                        serde_json::json!({ "c": c })
+                    }
+                },
+            )
+        })
+        .collect();
+    serde_json::Value::Object(m)
+}
